@@ -11,6 +11,9 @@ tie        correspondence facets (real function vs compiled model, return value 
              block_names  block_name / column_name / layer_name
              dict_keys    new_dict_key / new_node_name / new_column_name / uniqstring / fix_block_mapping
              geometries   add_layers and rectangular(...) name lists, block_name_list (also with surfaces)
+             sequences    multi-step orders in ONE process / on ONE object (spaces=False then True, the reverse, another alphabet or
+                          case in between, random orders; generators, add_layers, rectangular; numbers crossing n+n^2, n^3, n+n^2+n^3),
+                          each sequence in a pristine forked process: property oracle per step + the oracle's own numeration
 oracle     the property statement evaluated directly on the real return values (distinctness, lengths,
            inverse functions, exception class, idempotence / simulator form / cycle stability)
 """
@@ -751,6 +754,371 @@ def run_rect(R, case):
     return r, viol, g
 
 
+# ------------------------------------------------------------------ sequences (hidden state)
+#
+# Every other facet calls a generator / constructor for ONE configuration on a fresh object.  This facet runs realistic
+# multi-step orders in ONE process (and partly on ONE mulgrid object): the same convention / justification / chars first with
+# spaces=False and then with spaces=True, the reverse order, another alphabet or case in between, random orders — over numbers
+# that cross n+n^2, n^3 and n+n^2+n^3 of the alphabet (702 / 17576 / 18278 for 26 letters) and geometries that cross them.
+# Each sequence starts in a pristine process (a forked child of a fresh interpreter that has only imported mulgrids), so that
+# what one sequence leaves behind cannot hide the effect of the next.  Every step is judged by the property itself
+# (distinct, right length, only the naming error, counts, by-name dictionaries complete, block names invertible: violations)
+# and against the names of the oracle's own numeration, which do not depend on any earlier call (differences: disagreements).
+
+def seq_letters(k, chars, spaces, L):
+    """the oracle's own numeration of k >= 0 over a duplicate-free alphabet: bijective base-n when blanks are allowed,
+    positional base-n padded with chars[0] to L otherwise; None when it does not fit L characters"""
+    n, s = len(chars), ''
+    if spaces:
+        while k > 0:
+            k -= 1
+            s = chars[k % n] + s
+            k //= n
+    else:
+        while k > 0:
+            s = chars[k % n] + s
+            k //= n
+        s = chars[0] * (L - len(s)) + s
+    return s if len(s) <= L else None
+
+
+def seq_expected(kind, conv, L, k, left, chars, spaces):
+    """('ok', name) / ('exc', 'NamingConventionError') for column|node|layer number k, independent of any history"""
+    jf = str.ljust if left else str.rjust
+    if kind == 'layer':
+        s = (str(k) if len(str(k)) <= L else None) if conv == 0 else seq_letters(k, chars, spaces, L)
+        return ('ok', jf(s, L)) if s is not None else ('exc', 'NamingConventionError')
+    if conv in (0, 3):
+        s = seq_letters(k, chars, spaces, L)
+        return ('ok', jf(s, L)) if s is not None else ('exc', 'NamingConventionError')
+    return ('ok', str(k).rjust(L)) if len(str(k)) <= L else ('exc', 'NamingConventionError')
+
+
+def seq_expected_layers(conv, L, m, left, chars, spaces, surface):
+    """names add_layers gives to m layers below the surface layer (numbers whose name is the surface name are skipped)"""
+    out, num = [surface], 0
+    for _ in range(m):
+        while True:
+            num += 1
+            r = seq_expected('layer', conv, L, num, left, chars, spaces)
+            if r[0] != 'ok':
+                return r
+            if r[1] != surface:
+                break
+        out.append(r[1])
+    return ('ok', out)
+
+
+def seq_effective(R, chars, case_):
+    eff = chars if case_ is None else (chars.lower() if case_ == 'l' else chars.upper())
+    return R.m.uniqstring(eff)
+
+
+def seq_first_diff(a, b):
+    if a[0] != 'ok' or b[0] != 'ok':
+        return 'result %r, expected %r' % (a if a[0] != 'ok' else 'ok', b if b[0] != 'ok' else 'ok')
+    for i, (x, y) in enumerate(zip(a[1], b[1])):
+        if x != y:
+            return 'position %d: %r, expected %r' % (i, x, y)
+    return '%d names, expected %d' % (len(a[1]), len(b[1]))
+
+
+def seq_step(R, objs, st, case):
+    """one step on the real code -> (violations, mismatches, evaluations, outcome)"""
+    conv, left, chars, spaces = st['convention'], st['left'], st['chars'], st['spaces']
+    op = st['op']
+    viol, mism = [], []
+    tag = 'step %d of the sequence: ' % case['at']
+    cfg = '[convention %d, %s, chars=%r, spaces=%s]' % (conv, 'ljust' if left else 'rjust', chars, spaces)
+    if op == 'rect':
+        rc = dict(st); rc['fn'] = 'rectangular'
+        r, v, g = run_rect(R, rc)
+        for x in v:
+            viol.append(dict(key='sequence:' + x['key'], what=tag + x['what'], case=case))
+        if r[0] == 'ok':
+            eff = seq_effective(R, chars, st.get('case'))
+            nx, ny = st['nx'], st['ny']
+            Lc = g.colname_length
+            for kind, got, cnt in (('node', r[1][0], (nx + 1) * (ny + 1)), ('column', r[1][1], nx * ny)):
+                exp = [seq_expected(kind, conv, Lc, k, left, eff, spaces) for k in range(1, cnt + 1)]
+                exp = ('ok', [e[1] for e in exp]) if all(e[0] == 'ok' for e in exp) else ('exc', 'NamingConventionError')
+                if exp != ('ok', got):
+                    mism.append(dict(what='%s names of rectangular(%dx%dx%d) %s: %s' % (kind, nx, ny, st['nz'], cfg, seq_first_diff(('ok', got), exp)),
+                                     model=repr(exp)[:200], impl=repr(got)[:200]))
+            if r[1][2]:
+                exp = seq_expected_layers(conv, g.layername_length, st['nz'], left, eff, spaces, r[1][2][0])
+                if exp != ('ok', r[1][2]):
+                    mism.append(dict(what='layer names of rectangular(%dx%dx%d) %s: %s' % (nx, ny, st['nz'], cfg, seq_first_diff(('ok', r[1][2]), exp)),
+                                     model=repr(exp)[:200], impl=repr(r[1][2])[:200]))
+        return viol, mism, 1, (r[0] if r[0] == 'ok' else r[1])
+    key = (st.get('obj', 0), conv)
+    if key not in objs:
+        with contextlib.redirect_stdout(io.StringIO()):
+            objs[key] = R.m.mulgrid(convention=conv, atmos_type=2)
+    g = objs[key]
+    if op == 'addl':
+        m = st['m']
+        L = g.layername_length
+        r = call(g.add_layers, [1.0] * m, 0., 'l' if left else 'r', chars, spaces)
+        what = tag + 'add_layers(%d layers) %s' % (m, cfg)
+        if r[0] == 'ok':
+            names = [l.name for l in g.layerlist]
+            r = ('ok', names)
+            for x in oracle_names('layer', names, L, case, what):
+                viol.append(dict(x, key='sequence:' + x['key']))
+            if len(names) != m + 1:
+                viol.append(dict(key='sequence:layer-count', what='%s made %d layers' % (what, len(names)), case=case))
+            if g.num_layers != len(names):
+                viol.append(dict(key='sequence:layer-registry', what='%s: %d layers in the list, %d in the by-name dictionary' % (what, len(names), g.num_layers), case=case))
+        else:
+            for x in oracle_exc('add_layers', r, case, what):
+                viol.append(dict(x, key='sequence:' + x['key']))
+        surface = g.layerlist[0].name if g.layerlist else None       # the surface layer is added before any generated name
+        if surface is not None:
+            exp = seq_expected_layers(conv, L, m, left, R.m.uniqstring(chars), spaces, surface)
+            if exp != r:
+                mism.append(dict(what='add_layers(%d) %s: %s' % (m, cfg, seq_first_diff(r, exp)), model=repr(exp)[:200], impl=repr(r)[:200]))
+        return viol, mism, 1, (r[0] if r[0] == 'ok' else r[1])
+    if op == 'gen':
+        meth = st['meth']
+        kind = meth.split('_')[0]
+        f = getattr(g, meth)
+        L = g.layername_length if kind == 'layer' else g.colname_length
+        jf = R.justfn(left)
+        names, nums, nev, nexc = [], [], 0, 0
+        for lo, hi in st['ranges']:
+            for k in range(lo, hi + 1):
+                r = call(f, k, jf, chars, spaces)
+                nev += 1
+                exp = seq_expected(kind, conv, L, k, left, chars, spaces)
+                if r != exp and len(mism) < 3:
+                    mism.append(dict(what='%s(%d) %s: %r, expected %r' % (meth, k, cfg, r, exp), model=repr(exp), impl=repr(r)))
+                if r[0] == 'ok':
+                    names.append(r[1]); nums.append(k)
+                else:
+                    nexc += 1
+                    for x in oracle_exc(meth, r, case, tag + '%s(%d) %s' % (meth, k, cfg)):
+                        if len(viol) < 5:
+                            viol.append(dict(x, key='sequence:' + x['key']))
+        bad = [(k, n) for k, n in zip(nums, names) if not isinstance(n, str) or len(n) != L]
+        if bad:
+            viol.append(dict(key='sequence:%s-length' % meth, what=tag + '%s(%d) %s = %r does not have length %d' % (meth, bad[0][0], cfg, bad[0][1], L), case=case))
+        seen = {}
+        for k, n in zip(nums, names):
+            if n in seen:
+                viol.append(dict(key='sequence:%s-duplicate' % meth, what=tag + '%s %s gives %r for the numbers %d and %d' % (meth, cfg, n, seen[n], k), case=case))
+                break
+            seen[n] = k
+        if kind == 'column' and names:
+            # the generated column names with generated layer names: block names of 5 characters that give back their parts
+            lays = [x[1] for x in (call(g.layer_name_from_number, j, jf, chars, spaces) for j in (1, 2, 27)) if x[0] == 'ok']
+            for x in oracle_blocks(g, conv, lays, names, case, tag + cfg):
+                viol.append(dict(key='sequence:' + x['key'], what=x['what'], case=case))
+        return viol, mism, nev, ('%d names, %d naming errors' % (len(names), nexc))
+    raise RuntimeError('unknown sequence step %r' % op)
+
+
+def run_sequence(R, steps):
+    """all steps, in order, in this process; objects are shared between the steps that name the same 'obj'"""
+    objs = {}
+    out = dict(violations=[], mismatches=[], evaluations=0, outcomes=[])
+    for i, st in enumerate(steps):
+        case = {'fn': 'sequence', 'at': i, 'steps': steps[:i + 1]}
+        v, mm, nev, outcome = seq_step(R, objs, st, case)
+        out['violations'] += v
+        for x in mm:
+            x['case'] = case
+        out['mismatches'] += mm
+        out['evaluations'] += nev
+        out['outcomes'].append(outcome)
+    return out
+
+
+def seq_isolated(fn):
+    """fn() in a forked child of this process (JSON result through a pipe)"""
+    import os, json
+    rd, wr = os.pipe()
+    pid = os.fork()
+    if pid == 0:
+        code = 1
+        try:
+            os.close(rd)
+            data = json.dumps(fn()).encode()
+            with os.fdopen(wr, 'wb') as f:
+                f.write(data)
+            code = 0
+        except BaseException:
+            import traceback
+            traceback.print_exc()
+        finally:
+            os._exit(code)
+    os.close(wr)
+    with os.fdopen(rd, 'rb') as f:
+        data = f.read()
+    _, status = os.waitpid(pid, 0)
+    if status != 0 or not data:
+        raise RuntimeError('sequence child failed (status %d)' % status)
+    return json.loads(data.decode())
+
+
+def seq_server(inp, outp):
+    """entry point of the fresh interpreter: nothing of the library has been called yet; one forked child per sequence"""
+    import json
+    R = Real()
+    seqs = json.load(open(inp))
+    res = [seq_isolated(lambda s=s: run_sequence(R, s)) for s in seqs]
+    json.dump(res, open(outp, 'w'))
+
+
+def seq_run_all(ctx, seqs):
+    import json, subprocess, os
+    inp, outp = ctx.tmp / 'c17_seq_in.json', ctx.tmp / 'c17_seq_out.json'
+    json.dump(seqs, open(inp, 'w'))
+    harness = str(core.VERIF / 'harness')
+    p = subprocess.run([sys.executable, '-W', 'ignore', '-c',
+                        'import sys; sys.path.insert(0, %r); import core; import props.c17 as m; m.seq_server(%r, %r)' % (harness, str(inp), str(outp))],
+                       capture_output=True, text=True, timeout=3600, env=dict(os.environ, PYTOUGH_REPO=str(core.REPO)))
+    if p.returncode != 0 or not outp.exists():
+        raise RuntimeError('sequence server failed: ' + (p.stderr or p.stdout)[-2000:])
+    out = json.load(open(outp))
+    if len(out) != len(seqs):
+        raise RuntimeError('sequence server returned %d results for %d sequences' % (len(out), len(seqs)))
+    return out
+
+
+def seq_ranges(bounds, small=None):
+    if small:
+        return [[1, small]]
+    iv = [[1, 60]] + [[max(1, b0 - 35), b0 + 95] for b0 in bounds]
+    iv.sort()
+    out = []
+    for lo, hi in iv:
+        if out and lo <= out[-1][1] + 1:
+            out[-1][1] = max(out[-1][1], hi)
+        else:
+            out.append([lo, hi])
+    return out
+
+
+def seq_make_step(R, rng, conv, left, chars, spaces, size, kinds, case_=None, obj=0):
+    """one step for a configuration; size 'small' (an earlier, unrelated use) or 'big' (crosses the boundaries of the alphabet)"""
+    g = R.g(conv)
+    Lc, Ll = g.colname_length, g.layername_length
+    eff = seq_effective(R, chars, case_)
+    n = len(eff)
+    letters = conv in (0, 3)
+    kind = rng.choice(kinds)
+    base = dict(convention=conv, left=left, chars=chars, spaces=spaces)
+    ccap = (sum(n ** k for k in range(1, Lc + 1)) if spaces else n ** Lc - 1) if letters else 10 ** Lc - 1
+    lcap = 99 if conv == 0 else (sum(n ** k for k in range(1, Ll + 1)) if spaces else n ** Ll - 1)
+    if kind == 'rect':
+        if size == 'small':
+            nx, ny, nz = rng.randint(1, 5), rng.randint(1, 4), rng.randint(1, 3)
+            while (nx + 1) * (ny + 1) > ccap and nx > 1:
+                nx -= 1
+        else:
+            target = min(ccap, (n + n * n + 280) if letters and n >= 12 else 1150)      # number of nodes
+            ny = max(1, int(target ** 0.5) - rng.randint(0, 4))
+            nx = max(1, target // (ny + 1) - 1)
+            nz = rng.randint(1, 3)
+        nz = max(1, min(nz, lcap - 1))
+        return dict(base, op='rect', nx=nx, ny=ny, nz=nz, atmos_type=rng.randrange(3), case=case_, block_order=rng.choice([None, None, 'layer_column', 'dmplex']))
+    chars = eff          # the generators and add_layers get the alphabet as rectangular() would pass it on
+    base['chars'] = chars
+    if kind == 'addl':
+        m = rng.randint(1, 6) if size == 'small' else min(lcap - 1, rng.choice([99, 110, 120, n + 40]))
+        return dict(base, op='addl', m=max(1, m), obj=obj)
+    meth = kind + '_name_from_number'
+    if kind == 'layer':
+        bounds = [99] if conv == 0 else sorted(set([n, n ** 2 if Ll > 1 else n, lcap] + ([n + n * n, n ** 3] if Ll > 2 else [])))
+    else:
+        bounds = [n + n * n, n ** 3, n + n * n + n ** 3] if letters else [10 ** Lc - 1]
+    return dict(base, op='gen', meth=meth, obj=obj, ranges=seq_ranges(bounds, rng.randint(3, 40) if size == 'small' else None))
+
+
+SEQ_TEMPLATES = ['nospaces-then-spaces', 'spaces-then-nospaces', 'nospaces,other-alphabet,spaces', 'spaces,other-alphabet,nospaces', 'random-order']
+
+
+def seq_build(R, rng, template, conv, left, A, Bs, variant):
+    gens = ['column', 'node', 'layer']
+    if variant == 'generators':
+        small_k, big_k = gens + ['column'], ['column', 'column', 'node', 'layer']
+    elif variant == 'geometries':
+        small_k, big_k = ['rect', 'rect', 'addl'], ['rect']
+    else:
+        small_k, big_k = gens + ['rect', 'addl'], gens + ['rect', 'addl']
+    same_obj = rng.random() < 0.5            # the steps share one mulgrid object, or use different ones
+    ob = lambda i: 0 if same_obj else i
+    def other(i):
+        B, case_ = rng.choice(Bs)
+        sp = rng.random() < 0.5
+        if not good_chars(seq_effective(R, B, case_), sp):
+            sp = True
+        return seq_make_step(R, rng, conv, left if rng.random() < 0.7 else not left, B, sp, rng.choice(['small', 'small', 'big']) if variant != 'geometries' else 'small',
+                             small_k, case_, ob(i))
+    if template == 'nospaces-then-spaces':
+        return [seq_make_step(R, rng, conv, left, A, False, 'small', small_k, None, ob(0)), seq_make_step(R, rng, conv, left, A, True, 'big', big_k, None, ob(1))]
+    if template == 'spaces-then-nospaces':
+        return [seq_make_step(R, rng, conv, left, A, True, 'small', small_k, None, ob(0)), seq_make_step(R, rng, conv, left, A, False, 'big', big_k, None, ob(1))]
+    if template == 'nospaces,other-alphabet,spaces':
+        return [seq_make_step(R, rng, conv, left, A, False, 'small', small_k, None, ob(0)), other(1), seq_make_step(R, rng, conv, left, A, True, 'big', big_k, None, ob(2))]
+    if template == 'spaces,other-alphabet,nospaces':
+        return [seq_make_step(R, rng, conv, left, A, True, 'small', small_k, None, ob(0)), other(1), seq_make_step(R, rng, conv, left, A, False, 'big', big_k, None, ob(2))]
+    steps = []
+    for i in range(rng.randint(3, 5)):
+        if rng.random() < 0.65:
+            steps.append(seq_make_step(R, rng, conv, left, A, rng.random() < 0.5, rng.choice(['small', 'big']), small_k if variant != 'geometries' or i else big_k, None, ob(i)))
+        else:
+            steps.append(other(i))
+    return steps
+
+
+def facet_sequences(ctx, R, res, rng, alphas):
+    f = res.facet('sequences')
+    rnd = dict(alphas)['random']
+    pairs = [(LOWER, [(UPPER, None), (LOWER, 'u'), ('qwertyuiop', None)]),
+             (UPPER, [(LOWER, None), (UPPER, 'l'), ('AbCdEfG', None)]),
+             ('qwertyuiop', [('abcd', None), ('qwertyuiop', 'u'), (LOWER, None)]),
+             ('abcd', [('ab', None), ('abcd', 'u'), (UPPER, None)]),
+             (rnd, [(LOWER, None), (rnd, 'l'), (rnd, 'u')])]
+    seqs, meta = [], []
+    ngeo = 0
+    for conv in range(4):
+        for left in (False, True):
+            for A, Bs in pairs:
+                if not good_chars(A, False):
+                    continue
+                for template in SEQ_TEMPLATES:
+                    for variant in ('generators', 'geometries', 'mixed'):
+                        if variant != 'generators':
+                            # geometries cost more: in the quick tier the two plain orders for every 26-letter configuration, the rest sampled
+                            core_case = len(A) == 26 and template in SEQ_TEMPLATES[:2] and variant == 'geometries' and conv in (0, 3)
+                            if ctx.quick and not core_case and rng.random() > 0.12:
+                                continue
+                        if conv in (1, 2) and ctx.quick and variant == 'generators' and A not in (LOWER, 'abcd') :
+                            continue                    # digit column names: chars only reach the layer names
+                        seqs.append(seq_build(R, rng, template, conv, left, A, Bs, variant))
+                        meta.append((template, variant, conv, left, A))
+    out = seq_run_all(ctx, seqs)
+    for steps, (template, variant, conv, left, A), o in zip(seqs, meta, out):
+        f['cases'] += 1
+        res.evaluations += o['evaluations']
+        res.count('sequence:template=%s' % template)
+        res.count('sequence:variant=%s' % variant)
+        res.count('sequence:steps', len(steps))
+        res.count('sequence:calls', o['evaluations'])
+        for st, oc in zip(steps, o['outcomes']):
+            res.count('sequence:step=%s' % st['op'])
+            if oc == 'NamingConventionError':
+                res.count('sequence:geometry-naming-error')
+        res.distinct.add(('seq', template, variant, conv, left, A, len(steps)))
+        res.violations += o['violations']
+        for mm in o['mismatches']:
+            f['disagreements'] += 1
+            if len(res.disagreements) < 50:
+                res.disagreements.append(dict(facet='sequences', case=mm['case'], model=mm['model'], impl=mm['impl'] + ' — ' + mm['what']))
+
+
 ANCHORED = ['int_to_chars', 'new_dict_key', 'uniqstring', 'fix_blockname', 'unfix_blockname', 'fix_block_mapping', 'valid_blockname',
             'block_name', 'column_name', 'layer_name', 'node_col_name_from_number', 'column_name_from_number', 'node_name_from_number',
             'layer_name_from_number', 'new_node_name', 'new_column_name', 'add_layers', 'rectangular', 'setup_block_name_index',
@@ -815,7 +1183,8 @@ def run(ctx, only=None):
             h = res.hyp.setdefault('GoodChars / AlphabetOK (hypothesis on the alphabet in all generator theorems)', [0, 0])
             h[1] += 1
             h[0] += 1 if good_chars(chars, spaces) else 0
-    facets = [('numbers', lambda: facet_numbers(ctx, R, res, ctx.rng('numbers'), alphas)),
+    facets = [('sequences', lambda: facet_sequences(ctx, R, res, ctx.rng('sequences'), alphas)),
+              ('numbers', lambda: facet_numbers(ctx, R, res, ctx.rng('numbers'), alphas)),
               ('fix', lambda: facet_fix(ctx, R, res, ctx.rng('fix'))),
               ('blocks', lambda: facet_blocks(ctx, R, res, ctx.rng('blocks'), alphas)),
               ('dict', lambda: facet_dict(ctx, R, res, ctx.rng('dict'), alphas)),
@@ -845,7 +1214,7 @@ def search(ctx, seconds, res):
         c2 = core.Ctx(ctx.prop, 'quick', ctx.seed + 1000 * k)
         c2.model_ok = False
         try:
-            r = run(c2, only=['fix', 'blocks', 'dict', 'geometries'] if k > 1 else None)
+            r = run(c2, only=['sequences', 'fix', 'blocks', 'dict', 'geometries'] if k > 1 else None)
         finally:
             c2.cleanup()
         found = r.violations
@@ -859,6 +1228,12 @@ def replay(ctx, payload):
         return False, 'replay file names what no longer checks: %s' % payload.get('broken')
     R = Real()
     jf = R.justfn(c.get('left', False))
+    if fn == 'sequence':
+        # the recorded steps, in order, in this (fresh) process
+        o = run_sequence(R, c['steps'])
+        txt = '; '.join(x['what'] for x in o['violations'][:3])
+        return bool(o['violations']), txt or 'sequence of %d steps (%s): every step gave distinct, well-formed, invertible names (%s)' % (
+            len(c['steps']), ', '.join('%s spaces=%s' % (st['op'], st['spaces']) for st in c['steps']), '; '.join(str(x) for x in o['outcomes']))
     if fn in ('fix', 'unfix', 'valid'):
         v = oracle_fix(R, c['name'])
         return bool(v), '; '.join(x['what'] for x in v) or 'fix/unfix of %r: idempotent, simulator form, stable cycle' % c['name']
